@@ -14,7 +14,9 @@ GENERIC = (
 
 HYGIENE = [hygiene.r_falsy, hygiene.r_enum, hygiene.r_cache,
            hygiene.r_alias, hygiene.r_term, hygiene.r_lossy,
-           hygiene.r_shared, hygiene.r_loopflag, misc.r_oneshot]
+           hygiene.r_shared, hygiene.r_loopflag, misc.r_oneshot,
+           hygiene.r_argmut, hygiene.r_identity, hygiene.r_classstate,
+           hygiene.r_owned, hygiene.r_unused]
 HYGIENE_TEXT = (
     ' Repository conventions over every function reachable from the '
     'property\'s entry points: optional arguments, lookup results and '
@@ -24,7 +26,11 @@ HYGIENE_TEXT = (
     'shortcuts keep the sign; no equality by hash, no flag tested by '
     'identity with True/False, no signed references filed under abs(); flags '
     'that decide an early exit after a loop accumulate over it; an '
-    'Iterable argument is traversed at most once on every path.')
+    'Iterable argument is traversed at most once on every path; public '
+    'and retried operations do not edit their container arguments; no '
+    'identity test on values; no mutable class-level state written '
+    'through self; no table bound to an argument; no parameter '
+    'accepted and ignored.')
 
 
 ATTR_TEXT = (
@@ -381,6 +387,7 @@ prop('C19', [
     optab.r_quant_wrappers({'dd.cudd', 'dd.cudd_zdd', 'dd.sylvan'}),
     cyts.r_cyts,
     cyts.r_cache_tags,
+    cyts.r_loader_release,
 ],
     'the apply chain of each C wrapper (parsed with the Cython parser) is '
     'interpreted per alias over Booleans and compared with the '
